@@ -1151,7 +1151,9 @@ class Gen:
             else:
                 ident = "%s::%s" % (td["name"], "recurse_fold" if fold else "recurse_visit")
             it = Item(self.unit + "/" + ident, "method", list(self.props_default), td["rel"], td["lines"], sha(td["def_text"] + text))
-            it.name = (("default_" + td["method"]) if td.get("default") else (("recurse_fold_of_" if fold else "recurse_visit_of_") + td["name"]))  # none of these functions calls another (they call the visitor)
+            # the name is what the vacuity colouring looks for in the other bodies: a default method mentions `T::recurse_visit`,
+            # the generated traversals mention only visitor methods (never one another)
+            it.name = (("default_" + td["method"]) if td.get("default") else (td["name"] + ("::recurse_fold" if fold else "::recurse_visit")))  # none of these functions calls another (they call the visitor)
             it.body_text = mask(text)
             for e in ens:
                 it.clauses["ensures"].append(e)
